@@ -71,7 +71,7 @@ CLAIMS = {
          "with refunds ≥ 2; the supply bound it needs is cw20 conservation in inductive list-sum form, proved preserved by every operation; C20W: the same after any history of external actors' operations on a pair satisfying the invariant, and from the pair's creation on; C20B: the 128-bit bounds it needs are invariants (cw20 supplies and balances, circulating native totals), so only the initial ledger is constrained. "
          "Correspondence + oracle: world families inject withdrawals after arbitrary prefixes and the oracle demands success whenever the entitlement condition holds in the observed state.",
          "§6 C20", "Lean 4 proof (liveness: every step of the withdrawal succeeds under an inductive invariant) + differential correspondence on cw-multi-test"),
- "C15": ("Lean theorems: soundness and completeness of assert_slippage_tolerance, >100% always rejected, no abort on positive 128-bit inputs. "
+ "C15": ("Lean theorems: soundness and completeness of assert_slippage_tolerance, >100% always rejected, no abort on positive 128-bit inputs, monotonicity in the tolerance (accepted at t ⇒ accepted at every t' in [t, 100%]). "
          "Correspondence: slippage family with deposits solved around both ratio limits; world family liquidity: accepted provisions and guard rejections judged on the deposits in pair order and the observed reserves. World-level theorems (C15W): an accepted provision passed assert_slippage_tolerance on the deposits in pair order and the reserves net of native deposits; a guard rejection comes only from that call.", "§6 C15", "Lean 4 proof + differential correspondence"),
 }
 
